@@ -70,7 +70,11 @@ func C10(c *Ctx) error {
 		for _, src := range c10Sources {
 			variants := []string{""}
 			if src == "rule_violation" {
-				variants = []string{"top", "child", "repeated", "map", "two_fields", "repeated_two", "map_two"}
+				variants = []string{"top", "child", "repeated", "map", "two_fields", "repeated_two", "map_two", "repeated_many"}
+			}
+			if src == "plain_error" || src == "validation_from_handler" {
+				// "large": an error body well beyond any small buffer (4 KiB, 8 KiB): it is carried whole
+				variants = []string{"", "large"}
 			}
 			if src == "url_binding" {
 				variants = []string{"bad_path_int", "missing_required_query", "bad_path_range", "bad_query_int", "bad_query_bool"}
@@ -125,6 +129,14 @@ func C10(c *Ctx) error {
 								case "repeated_two":
 									// two failing elements: two violations whose field paths coincide — both are reported
 									body, ks.wantViol = fmt.Sprintf(`{"name":"n","places":[{"%s":""},{"%s":"ok"},{"%s":""}]}`, ir.JSONName(street), ir.JSONName(street), ir.JSONName(street)), []string{"places." + street, "places." + street}
+								case "repeated_many":
+									// 150 failing elements: an error body of several KiB, every violation reported
+									var els []string
+									for e := 0; e < 150; e++ {
+										els = append(els, fmt.Sprintf(`{"%s":""}`, ir.JSONName(street)))
+										ks.wantViol = append(ks.wantViol, "places."+street)
+									}
+									body = `{"name":"n","places":[` + strings.Join(els, ",") + `]}`
 								case "map_two":
 									body, ks.wantViol = fmt.Sprintf(`{"name":"n","byKey":{"a":{"%s":""},"b":{"%s":""}}}`, ir.JSONName(street), ir.JSONName(street)), []string{"by_key." + street, "by_key." + street}
 								default:
@@ -132,6 +144,10 @@ func C10(c *Ctx) error {
 								}
 							case "plain_error":
 								handler, ks.wantMsg = map[string]any{"kind": "err_plain", "msg": "boom é"}, "boom é"
+								if variant == "large" {
+									long := "boom é " + strings.Repeat("0123456789abcdef", 600)
+									handler, ks.wantMsg = map[string]any{"kind": "err_plain", "msg": long}, long
+								}
 							case "sebuf_error":
 								handler, ks.wantMsg = map[string]any{"kind": "err_sebuf", "msg": "denied"}, "denied"
 							case "wrapped_sebuf_error":
@@ -140,6 +156,15 @@ func C10(c *Ctx) error {
 							case "validation_from_handler":
 								handler = map[string]any{"kind": "err_validation", "violations": [][2]string{{"a.b", "bad"}, {"c", "worse"}}}
 								ks.wantViol = []string{"a.b", "c"}
+								if variant == "large" {
+									var vs [][2]string
+									ks.wantViol = nil
+									for e := 0; e < 200; e++ {
+										vs = append(vs, [2]string{fmt.Sprintf("items[%d].name", e), "must not be empty, nor longer than 64 characters"})
+										ks.wantViol = append(ks.wantViol, fmt.Sprintf("items[%d].name", e))
+									}
+									handler = map[string]any{"kind": "err_validation", "violations": vs}
+								}
 							case "wrapped_validation_from_handler":
 								handler = map[string]any{"kind": "err_validation", "violations": [][2]string{{"a.b", "bad"}}, "wrapped": true}
 								ks.wantMsg = "bad"
